@@ -155,7 +155,8 @@ def run(ctx):
     from gemclus.tree import Kauri
     for it in range(nf // 3):
         n, d = int(rs.randint(6, 30)), int(rs.randint(1, 4))
-        X = rs.randn(n, d) * float(rs.choice([0.01, 1.0, 1234.5]))
+        # every magnitude of feature values: thresholds whose repr is in scientific notation (|t| < 1e-4, |t| >= 1e16) included
+        X = rs.randn(n, d) * float([1e-6, 0.01, 1.0, 1234.5, 1e-9, 1e17][it % 6])
         try:
             import gemclus.tree.kauri as K
             from translator import pyx2py
@@ -170,7 +171,7 @@ def run(ctx):
         ctx.case(("real", X.tobytes()), model.tree_.n_nodes > 1, None)
         ctx.count("real-valued-trees")
         col = lambda nm: int(re.match(r"X\[:, (\d+)\]$", nm).group(1))
-        Q = np.vstack([X, X + 1e-9 * np.abs(X), rs.randn(10, d)])
+        Q = np.vstack([X, X + 1e-9 * np.abs(X), X - 1e-9 * np.abs(X), rs.randn(10, d) * np.abs(X).max()])
         pq = model.predict(Q)
         for r in range(len(Q)):
             c = eval_rules(rules, Q[r], col)
